@@ -384,28 +384,37 @@ func (t *T) IsMatchType(targetT *T) bool {
 	return t.tType == targetT.tType
 }
 
+// isAcceptVariant reports whether a value of the non-union type targetT can
+// be passed where the non-union type t is expected
+func (t *T) isAcceptVariant(targetT *T) bool {
+	if t.tType == UNTYPED || targetT.tType == UNTYPED {
+		return true
+	}
+
+	if t.tType == OBJECT && targetT.tType == OBJECT {
+		return t.GetObjectClass() == targetT.GetObjectClass()
+	}
+
+	return t.tType == targetT.tType
+}
+
+// IsMatchUnionType is called on a union t. A union targetT matches when each
+// of its variants is accepted by some variant of t, any other targetT when
+// some variant of t and targetT accept each other.
 func (t *T) IsMatchUnionType(targetT *T) bool {
 	switch targetT.tType {
 	case UNION:
-		targetTypes := targetT.GetVariantTypes()
-		tTypes := t.GetVariantTypes()
+		for _, targetVariantT := range targetT.variants {
+			isAccept := false
 
-		if slices.Contains(targetTypes, UNTYPED) {
-			return true
-		}
-
-		if slices.Contains(tTypes, UNTYPED) {
-			return true
-		}
-
-		for _, tType := range tTypes {
-			if !slices.Contains(targetTypes, tType) {
-				return false
+			for _, variantT := range t.variants {
+				if variantT.isAcceptVariant(&targetVariantT) {
+					isAccept = true
+					break
+				}
 			}
-		}
 
-		for _, targetType := range targetTypes {
-			if !slices.Contains(tTypes, targetType) {
+			if !isAccept {
 				return false
 			}
 		}
@@ -414,11 +423,7 @@ func (t *T) IsMatchUnionType(targetT *T) bool {
 
 	default:
 		for _, variantT := range t.variants {
-			if variantT.IsAnyType() {
-				return true
-			}
-
-			if variantT.tType == targetT.tType {
+			if variantT.isAcceptVariant(targetT) {
 				return true
 			}
 		}
